@@ -52,7 +52,22 @@ def mask_level(ctx, rep):
     return len(pairs), hist
 
 
+def empty_population_specs(ctx):
+    """Constraints that only the start point's own grid cell satisfies: every ES candidate of every generation is infeasible."""
+    from .. import gen
+    rng = ctx.sub_rng("c18empty")
+    specs = []
+    for _ in range(6 if ctx.quick else 30):
+        sp = gen.make_spec(rng, D=rng.choice([2, 2, 3]), mode=rng.choice(["det", "det", "decl"]), geom=rng.choice(["box", "tight", "unbounded"]), cons="lattice",
+                           opt_loc="inside", target="quad")
+        sp["options"] = {"n_search": rng.choice([32, 64]), "max_fun_evals": (sp["D"] + 30) if sp["mode"] == "det" else 70, "max_iter": 25}
+        specs.append(sp)
+    return specs
+
+
 def run_level(ctx, rep):
+    if not getattr(ctx, "_replaying", False):
+        runlevel.with_extra(ctx, "c18empty", lambda: empty_population_specs(ctx))
     traces = runlevel.get_pool(ctx)
     stats = {"runs": 0, "searches": 0, "es_generations": 0, "empty_generations": 0, "hedge_calls": 0, "small_populations": 0, "ties": 0}
     es_reqs, es_owners, h_reqs, h_owners = [], [], [], []
@@ -66,7 +81,10 @@ def run_level(ctx, rep):
         beta = 1e-3 / t["hdr"]["opts"]["tol_fun"]
         lam = int(t["hdr"]["opts"]["n_search"] / t["hdr"]["opts"]["n_search_iter"])
         gens = []
+        es_out = []
         for k, e in t["events"]:
+            if k == "FILT" and e["site"] == "es":
+                es_out.append(e["n_out"])
             if k == "ACQ" and e["site"] == "es":
                 stats["es_generations"] += 1
                 if e["n"] == 0:
@@ -88,6 +106,11 @@ def run_level(ctx, rep):
                     p = np.array(e["prob"])
                     if abs(np.sum(p) - 1) > 1e-12 or np.any(p < e["gamma"] - 1e-15) or not (0 <= e["chosen"] < e["n"]):
                         rep.violation("hedge_distribution", SITE_H, f"strategy probabilities {p.tolist()} (gamma={e['gamma']}, chosen={e['chosen']}) are not a proper distribution with floor gamma; {tag}", case)
+                # nothing survived in any generation: nothing may be proposed
+                if es_out and all(n == 0 for n in es_out):
+                    stats["all_empty_searches"] = stats.get("all_empty_searches", 0) + 1
+                    if len(e["u_out"]) > 0:
+                        rep.violation("es_member", SITE_E, f"a point was proposed although no candidate of any generation survived the feasibility filters; {tag}", case)
                 # ES result vs all surviving candidates of this search
                 if gens is not None and gens and all(gg is not None for gg in gens):
                     allz = [Fraction(c["z"]) for gg in gens for c in gg]
@@ -102,6 +125,7 @@ def run_level(ctx, rep):
                         es_reqs.append({"cmd": "srch.es", "lam": lam, "gens": gens})
                         es_owners.append((case, tag, e))
                 gens = []
+                es_out = []
             elif k == "SRCH":
                 n = e["post"]["fc"] - e["pre"]["fc"]
                 if n not in (0, 1):
@@ -138,6 +162,7 @@ def replay(ctx, data):
     if c.get("kind") == "search_run":
         from .. import tracer
         ctx._pool = [tracer.run_traced(c["spec"])]
+        ctx._replaying = True
         run_level(ctx, rep)
     else:
         mask_level(ctx, rep)
